@@ -152,6 +152,39 @@ def geP (a b : Ent) : Bool := decide (b.prio ≤ a.prio)
 /-- one executable inhabitant of `IsSorted` -/
 def sortEnts (entries : List Ent) : List Ent := entries.mergeSort geP
 
+/-! ### lockContainer (run_queue.go:131-159), run in the goroutine spawned at `lockgo`
+
+`uuidLock(uuid, "lock")` fails when another operation on the uuid is in progress (`sch.uuidOp`);
+then `queue.Get(uuid)` must still report state Queued (the cache may have changed since the pass
+took its snapshot); only then `queue.Lock(uuid)` is called. -/
+
+/-- does the goroutine for `u` call `queue.Lock(u)`?  `opInProgress` = `sch.uuidOp` at that time,
+`curState` = the queue's cached state at that time (`none`: no longer in the queue). -/
+def lockContainerCalls (opInProgress : Nat → Bool) (curState : Nat → Option CState) (u : Nat) : Bool :=
+  !opInProgress u && decide (curState u = some .queued)
+
+/-- the `queue.Lock` calls that result from a pass's trace -/
+def lockCalls (opInProgress : Nat → Bool) (curState : Nat → Option CState) (tr : List Ev) : List Nat :=
+  (tr.filterMap (fun e => match e with | .lockgo u => some u | _ => none)).filter
+    (lockContainerCalls opInProgress curState)
+
+/-! ### pools whose Create failures are monotone within a pass
+
+The real `worker.Pool.Create` returns false when `time.Now()` is before `atQuotaUntil`, when
+`throttleCreate` holds an error, or when `len(creating)` has reached
+`maxConcurrentInstanceCreateOps` (which also sets `throttleCreate`). `creating` only shrinks when a
+cloud Create call returns; the quota / throttle conditions only end when a timer expires. So,
+unless one of these asynchronous events falls inside the pass, a Create that failed keeps failing
+for the rest of the pass. `CreateMonotone P Dead` states this for an arbitrary pool: `Dead` is a
+set of pool states in which Create fails, entered by every failed Create and left by no call. -/
+structure CreateMonotone (P : Pool σ) (Dead : σ → Prop) : Prop where
+  enter : ∀ t s, (P.create t s).1 = false → Dead (P.create t s).2
+  fail : ∀ t s, Dead s → (P.create t s).1 = false
+  keepQ : ∀ s, Dead s → Dead (P.atQuota s).2
+  keepC : ∀ t s, Dead s → Dead (P.create t s).2
+  keepK : ∀ b u s, Dead s → Dead (P.kill b u s).2
+  keepS : ∀ t u s, Dead s → Dead (P.start t u s).2
+
 /-! ### the concrete recording stub pool used by the correspondence driver
 (mirrors harness/overlay/lib/dispatchcloud/scheduler/zz_verif_c16_test.go) -/
 
